@@ -43,7 +43,7 @@ theorem SimL.ext {s0 g0 s} (hL : SimL s0 g0) (he : Ext s0 s) (hsmall : s.interne
   have hlen : s0.interner.length ≤ s.interner.length := he.pre.length_le
   refine { lenE := by rw [he.idmap]; exact hL.lenE, lenL := by rw [he.idmap]; exact hL.lenL,
            e2i := by rw [he.idmap]; exact hL.e2i, extPt := by rw [he.idmap]; exact hL.extPt,
-           extLt := hL.extLt, extNZ := hL.extNZ, extND := hL.extND, labels := ?_,
+           extLt := hL.extLt, extNZ := hL.extNZ, extND := hL.extND, extIdND := hL.extIdND, labels := ?_,
            labelsInt := fun p h => he.pre.subset (hL.labelsInt p h), labelsLt := hL.labelsLt,
            deadLt := hL.deadLt, small := hsmall, i2lOK := ?_ }
   · intro n lid nm hr hn hd
@@ -170,7 +170,7 @@ theorem Sim.empty : Sim {} {} := by
     · intro r nm a b k hr; simp at hr
     · intro run hr; cases hr
     · intro p hp; cases hp
-  · refine { lenE := rfl, lenL := rfl, e2i := rfl, extPt := ?_, extLt := ?_, extNZ := ?_, extND := List.nodup_nil,
+  · refine { lenE := rfl, lenL := rfl, e2i := fun _ => rfl, extPt := ?_, extLt := ?_, extNZ := ?_, extND := List.nodup_nil, extIdND := List.nodup_nil,
              labels := ?_, labelsInt := ?_, labelsLt := ?_, deadLt := ?_, small := by decide, i2lOK := ?_ }
     · intro n; rfl
     · intro p hp; cases hp
